@@ -126,7 +126,7 @@ func c17CloseFails(c run.Ctx, res *core.CaseResult, kind string) {
 	}
 }
 
-// c17Gated runs one of the scripted descriptor scenarios (G15, G16).
+// c17Gated runs one of the scripted descriptor scenarios (G22, G23).
 func c17Gated(c run.Ctx, res *core.CaseResult, j int) {
 	c2 := c
 	c2.Index = j * 8
